@@ -610,6 +610,8 @@ class Array:
 
         """
 
+        # the array may have been changed through another Array object
+        self._sync_arrayinfo()
         if stepsize is None:
             stepsize = chunklen
         if startindex is None:
@@ -725,6 +727,8 @@ class Array:
            copy of the darr array
 
         """
+        # the array may have been changed through another Array object
+        self._sync_arrayinfo()
         metadata = dict(self.metadata)
         return asarray(path=path, array=self, dtype=dtype,
                        accessmode=accessmode, metadata=metadata,
